@@ -202,14 +202,16 @@ def two_dict_scenario(rng, s, keys, horizon, hist1, pid0):
     return "\n".join(lines), out, prs
 
 
-def check_c10(chk, rng):
+def check_c10(chk, rng, nscn=None, force_throw=False, with_models=True, tag="c10"):
+    """nscn / force_throw / with_models: the C15 check runs the keyed-error part of this family under its own name
+    (every mapped function throws on some inputs, per-key capture on)."""
     quick = chk.tier == "quick"
     # level B of the keyed parent's scheduling (lazy heap of child wake-ups, sparse candidate set, pull, drain, re-arm):
     # exhaustive, and each named fault must be rejected (runs in the background, collected at the end)
     models = hg.models_start([("MapSched", "MapSched.none.cfg" if quick else "MapSched.thorough.cfg", None, "MapSched-exhaustive")] +
                              [("MapSched", "MapSched.%s.cfg" % f, inv, "MapSched-fault:" + f)
-                              for f, inv in (("lt", "NoLostWakeup"), ("back", "ParentCovers"), ("nopull", "ParentCovers"), ("noobserve", "NoLostWakeup"))])
-    nscn = 450 if quick else 2500
+                              for f, inv in (("lt", "NoLostWakeup"), ("back", "ParentCovers"), ("nopull", "ParentCovers"), ("noobserve", "NoLostWakeup"))]) if with_models else None
+    nscn = nscn or (450 if quick else 2500)
     scns, metas, progs = [], [], []
     pid = 1
     for s in range(nscn):
@@ -219,7 +221,7 @@ def check_c10(chk, rng):
         hist = dict_history(rng, keys, horizon, maxops=6 if big else 3)
         if not hist:
             continue
-        two_dicts = rng.random() < 0.3
+        two_dicts = rng.random() < 0.3 and not force_throw
         if two_dicts:
             scn, ips, prs = two_dict_scenario(rng, s, keys, horizon, hist, pid)
             pid += len(prs)
@@ -229,7 +231,7 @@ def check_c10(chk, rng):
             continue
         keyed = rng.random() < 0.4
         bcast = rng.random() < 0.4
-        throws = rng.random() < 0.3
+        throws = force_throw or rng.random() < 0.3
         fnodes, fout = fn_graph(rng, 10, keyed, bcast, allow_throw=throws)
         keyed = any("key" in n[3] for n in fnodes)
         bticks = P.gen_script(rng, horizon, maxlen=3, values=(10, 20, 30)) if bcast else []
@@ -252,8 +254,8 @@ def check_c10(chk, rng):
                 ips.append((k, a, r, p))
         scns.append(scn)
         metas.append((hist, ips, horizon))
-    preds, res = dfcheck.predict(progs, tag="c10")
-    chk.add_tlc(res, "run-alone")
+    preds, res = dfcheck.predict(progs, tag=tag)
+    chk.add_tlc(res, "run-alone" if tag == "c10" else "keyed-map-run-alone")
     traces = hg.run_driver("engine", scns)
     nkeys = 0
     for scn, (hist, ips, horizon), tr in zip(scns, metas, traces):
@@ -314,8 +316,11 @@ def check_c10(chk, rng):
                           "failed key removed)" % empty_err, "# C10/C15 error output ticks without an error\n" + scn + "\n")
         if any("throwneg" in l for l in scn.splitlines()) and sorted(errs) != gote:
             chk.violation("map-error-key", "per-key errors: specified %s, observed %s" % (sorted(errs), gote), "# C10/C15 keyed error\n" + scn + "\n")
-    hg.models_finish(chk, models)
+    if models:
+        hg.models_finish(chk, models)
     chk.notes["key_intervals_checked"] = nkeys
+    if tag != "c10":
+        return
     chk.coverage["traces_validated_against_impl"] += len(scns)   # each run compared tick by tick with TLC's predictions
     for k in (0, 1):
         if k < len(scns):
